@@ -334,7 +334,14 @@ def apply_plain(op, operands):
 SITE = {"B": "ImageBatch", "F": "FlowFields", "I": "Image", "FI": "FlowField"}
 
 
+FAMILY = {"flip": "batch-reorder", "roll": "batch-reorder", "index_select": "batch-reorder",
+          "permute": "batch-mix", "scan": "batch-mix",
+          "split_list": "split-sizes", "split_with_sizes": "split-sizes",
+          "tensor_split_n": "tensor_split-int", "tensor_split_idx": "tensor_split-indices"}
+
+
 def op_name(op):
+    """operation family used in violation keys (root cause level, stable across seeds)"""
     k = op["op"]
     if k == "getitem":
         kinds = [i["t"] for i in op["ix"]]
@@ -342,17 +349,29 @@ def op_name(op):
             return "getitem-ellipsis"
         if "bools" in kinds:
             return "getitem-mask"
+        if any(i.get("as") == "numpy" for i in op["ix"]) and "ell" in kinds:
+            return "getitem-numpy-ellipsis"
         return "getitem"
-    if k in ("cat", "stack", "split", "split_list", "split_with_sizes", "tensor_split_n", "tensor_split_idx", "chunk", "unbind"):
+    name = FAMILY.get(k, k)
+    if k in ("split", "split_list", "split_with_sizes", "tensor_split_n", "tensor_split_idx", "chunk", "unbind"):
         d = op.get("d", {"k": "none"})
-        return k + ("" if d["k"] == "none" or d.get("v") == 0 else "-dim")
-    if k == "permute":
-        return "permute"
+        if d["k"] != "none" and d.get("v") != 0:
+            name = "split-other-dim"
     if k == "copy":
         return op["fn"]
     if k == "iter_build":
         return op["how"]
-    return k
+    return name
+
+
+def wellformed(x):
+    """one grid per entry, of the data's spatial shape (what every constructor call is meant to guarantee)"""
+    d = describe(x)
+    if d["kind"] in ("B", "F"):
+        return len(d["grids"]) == d["shape"][0] and all(g == d["shape"][2:] for g in d["gshapes"])
+    if d["kind"] in ("I", "FI"):
+        return d["gshapes"][0] == d["shape"][1:]
+    return True
 
 
 def site_of(op, operands):
@@ -387,6 +406,9 @@ def oracle(op, operands, obs):
     """violations of the property at this step: list of (key, what)"""
     site = site_of(op, operands)
     name = op_name(op)
+    if op["op"] in ("split", "split_list", "split_with_sizes", "tensor_split_n", "tensor_split_idx") and isinstance(operands[0], Tensor) \
+            and operands[0].ndim and operands[0].shape[0] == 0:
+        name = "split-of-empty-batch"
     key = lambda kind: f"C19:{site}:{name}:{kind}"  # noqa
     out = []
     descs_in = [describe(x) for x in operands]
@@ -408,7 +430,15 @@ def oracle(op, operands, obs):
         batched = d["kind"] in ("B", "F")
         spatial = shape[2:] if batched else shape[1:]
         if batched and len(d["grids"]) != shape[0]:
-            out.append((key("grid-count"), f"result of type {SITE[d['kind']]} has {shape[0]} entries but {len(d['grids'])} grids"))
+            k2 = key("grid-count")
+            if site == "FlowFields.__torch_function__":
+                k2 = f"C19:{site}:any-op-changing-batch-size:grid-count"      # root cause does not depend on the operation
+            out.append((k2, f"result of type {SITE[d['kind']]} has {shape[0]} entries but {len(d['grids'])} grids ({op['op']})"))
+            continue
+        if op["op"] == "sample_grid":
+            want = [op["gid"] + (i if op["n"] > 1 else 0) for i in range(shape[0])]
+            if d["grids"] != want:
+                out.append((key("wrong-grids"), f"sampled batch carries grids {d['grids']}, expected the target grids {want}"))
             continue
         if any(gs != spatial for gs in d["gshapes"]):
             out.append((key("grid-shape"), f"grid shape {d['gshapes'][0]} differs from the data's spatial shape {spatial}"))
@@ -457,8 +487,13 @@ def run_case(case):
     for si, st in enumerate(case["steps"]):
         operands = [cur if r == "cur" else inputs[r] for r in st["args"]]
         obs, outs = run_step(st["op"], operands)
-        for key, what in oracle(st["op"], operands, obs):
-            viols.append({"key": key, "what": what, "step": si})
+        # the property is evaluated on steps whose operands are well described; the consequences of an
+        # earlier violation (a value with the wrong number of grids) are not reported a second time
+        if all(wellformed(x) for x in operands):
+            for key, what in oracle(st["op"], operands, obs):
+                viols.append({"key": key, "what": what, "step": si})
+        else:
+            obs["operands_not_wellformed"] = True
         steps_out.append(obs)
         if outs is None:
             break
